@@ -361,6 +361,18 @@ pub fn run(ctx: &Ctx) -> (Stats, Report) {
         st.merge(s);
         st.exhaustive_sections.push("blank runs of every length 1..=700 in three picture shapes x one value of each type".into());
     }
+    for k in 8..=18u32 {
+        for n in [(1usize << k) - 1, 1 << k, (1 << k) + 1] {
+            let v = pools::pool(Kind::Date, seed, 0)[3];
+            let pic = format!("YYYY{}MM", " ".repeat(n));
+            st.evaluations += 1;
+            st.nontrivial_enum += 1;
+            st.class("blank-run-at-binary-boundary-length");
+            if let Err(m) = check_format(&v, &pic) {
+                st.fail(n as u64, case_of(&v, &pic), format!("blank run of {n}: {}", m.chars().take(200).collect::<String>()));
+            }
+        }
+    }
     st.section("blank_runs_copied", &mut mark);
 
     // E: composite pictures (proptest)
